@@ -11,36 +11,36 @@ namespace Paranoid
 
 /-- what a single check decides for one key. `sevUnknown`: the check lowers its severity to
 SEVERITY_UNKNOWN for this key (CheckLowHammingWeight without factors). -/
-structure Verdict where
+structure KeyVerdict where
   weak : Bool
   factors : List Nat
   sevUnknown : Bool := false
   deriving Repr, DecidableEq
 
-def Verdict.pass : Verdict := ⟨false, [], false⟩
+def KeyVerdict.pass : KeyVerdict := ⟨false, [], false⟩
 
 /-- `CheckFermat` for one key. A returned tuple is always truthy. -/
-def vFermat (n maxSteps : Nat) : Verdict :=
+def vFermat (n maxSteps : Nat) : KeyVerdict :=
   match fermatFactor n maxSteps with
   | some (p, q) => ⟨true, [p, q], false⟩
   | none => .pass
 
 /-- `CheckHighAndLowBitsEqual` for one key (`if factors:` = non-empty list). -/
-def vHlbe (n : Nat) (middleBits : Nat) : Except PyErr Verdict :=
+def vHlbe (n : Nat) (middleBits : Nat) : Except PyErr KeyVerdict :=
   match factorHighAndLowBitsEqual n middleBits with
   | .error e => .error e
   | .ok (some (f :: fs)) => .ok ⟨true, f :: fs, false⟩
   | .ok _ => .ok .pass
 
 /-- `CheckContinuedFractions` for one key. -/
-def vCf (n bound : Nat) : Except PyErr Verdict :=
+def vCf (n bound : Nat) : Except PyErr KeyVerdict :=
   match checkContinuedFraction n bound with
   | .error e => .error e
   | .ok (ok, fs) => if ok then .ok .pass else .ok ⟨true, fs, false⟩
 
 /-- `for pattern_size in pattern_sizes` loop of `CheckBitPatterns`. -/
 def bitPatternsLoop (n maxPs : Nat) (red : Nat → List (List Int)) :
-    List Nat → Except PyErr Verdict
+    List Nat → Except PyErr KeyVerdict
   | [] => .ok .pass
   | ps :: rest =>
     if ps > maxPs then bitPatternsLoop n maxPs red rest
@@ -56,7 +56,7 @@ def defaultPatternSizes : List Nat :=
 
 /-- `CheckBitPatterns` for one key. -/
 def vBitPatterns (n : Nat) (patternSizes : List Nat) (red : Nat → List (List Int)) :
-    Except PyErr Verdict :=
+    Except PyErr KeyVerdict :=
   bitPatternsLoop n (bitLength n / 8) red patternSizes
 
 /-- the denominator for limb size `wsize` and `psize`:
@@ -67,7 +67,7 @@ def permutedDenominator (wsize psize : Nat) : Nat :=
 /-- inner `for psize in range(3, wsize, 2)` loop: `.inl` = verdict reached (factored),
 `.inr ()` = fell through or hit the `break` on size. -/
 def permutedInner (n maxD wsize : Nat) (red : Nat → List (List Int)) :
-    List Nat → Except PyErr (Option Verdict)
+    List Nat → Except PyErr (Option KeyVerdict)
   | [] => .ok none
   | psize :: rest =>
     let d := permutedDenominator wsize psize
@@ -83,7 +83,7 @@ def oddRange (wsize : Nat) : List Nat :=
   (List.range ((wsize - 3 + 1) / 2)).map (fun i => 3 + 2 * i)
 
 def permutedOuter (n maxD : Nat) (red : Nat → List (List Int)) :
-    List Nat → Except PyErr Verdict
+    List Nat → Except PyErr KeyVerdict
   | [] => .ok .pass
   | wsize :: rest =>
     match permutedInner n maxD wsize red (oddRange wsize) with
@@ -92,21 +92,21 @@ def permutedOuter (n maxD : Nat) (red : Nat → List (List Int)) :
     | .ok none => permutedOuter n maxD red rest
 
 /-- `CheckPermutedBitPatterns` for one key. -/
-def vPermuted (n : Nat) (red : Nat → List (List Int)) : Except PyErr Verdict :=
+def vPermuted (n : Nat) (red : Nat → List (List Int)) : Except PyErr KeyVerdict :=
   permutedOuter n (bitLength n / 8) red [8, 16, 32, 64]
 
 /-- `CheckPollardpm1` for one key, given the constructor's product `m`. -/
-def vPollard (n m gcdBound : Nat) : Verdict :=
+def vPollard (n m gcdBound : Nat) : KeyVerdict :=
   let r := pollardPm1 n m gcdBound
   if r.1 then ⟨true, r.2, false⟩ else .pass
 
 /-- `CheckLowHammingWeight` for one key: severity UNKNOWN when weak without factors. -/
-def vLhw (n cutoff maxsteps : Nat) : Verdict :=
+def vLhw (n cutoff maxsteps : Nat) : KeyVerdict :=
   let r := checkLowHammingWeight n cutoff maxsteps
   if r.1 then ⟨true, r.2, r.2.isEmpty⟩ else .pass
 
 /-- `CheckSmallUpperDifferences` for one key. -/
-def vSud (n cbrt : Nat) : Except PyErr Verdict :=
+def vSud (n cbrt : Nat) : Except PyErr KeyVerdict :=
   match checkSmallUpperDifferences n cbrt with
   | .error e => .error e
   | .ok (some (f :: fs)) => .ok ⟨true, f :: fs, false⟩
@@ -114,7 +114,7 @@ def vSud (n cbrt : Nat) : Except PyErr Verdict :=
 
 /-- `CheckUnseededRand`: flattened candidate sequence (for each listed value `p_0`, the
 iteration order of the Python set `{p_0, p_0 | msb_1, p_0 | msb_11}`); first success wins. -/
-def unseededLoop (n cbrt : Nat) : List Nat → Except PyErr Verdict
+def unseededLoop (n cbrt : Nat) : List Nat → Except PyErr KeyVerdict
   | [] => .ok .pass
   | p1 :: rest =>
     match factorWithGuess n p1 cbrt with
@@ -129,7 +129,7 @@ def unseededVariants (n p0 : Nat) : List Nat :=
   let msb11 := msb1 ||| 2 ^ (psize - 2)
   [p0, p0 ||| msb1, p0 ||| msb11]
 
-def vUnseeded (n cbrt : Nat) (candidates : List Nat) : Except PyErr Verdict :=
+def vUnseeded (n cbrt : Nat) (candidates : List Nat) : Except PyErr KeyVerdict :=
   unseededLoop n cbrt candidates
 
 end Paranoid
